@@ -1,9 +1,123 @@
 import Ivg.Model.Decoder
 import Ivg.Model.Arc
-import Ivg.Model.MdIcons
 import Ivg.Gen.Tie
 import Ivg.Obligations
-/-! # Property C18 — theorems (work in progress: tie obligations only so far) -/
+/-!
+# C18 — independent decodes, renders and encodes are safe to run concurrently (PARTIAL)
+
+What makes the property true of the code is the absence of shared mutable state.  That has two halves:
+
+1. **Frame (regenerated from the source on every run, `Ivg/Gen/Facts.lean` + `Tie.lean`)**: no package-level
+   variable is assigned or appended into outside its declaration (`no_global_writes`), there are no goroutines
+   and no `unsafe`/`sync`/`reflect`/cgo/`runtime` imports (`no_go_statements`, `no_risky_imports`), the set of
+   package-level variables is the reviewed list of read-only tables and defaults (`package_vars_frame`), and the only
+   non-receiver parameters written through are the reviewed caller-local ones (`param_writes_frame`) — in particular
+   neither `src []byte` nor a caller's palette.
+2. **Interleaving independence (this file)**: machines that share only an immutable value and otherwise step on
+   their own local state reach, under EVERY schedule, exactly the local state they reach when run alone.  The
+   models of Encoder, Decoder and Renderer are such machines: their step functions are pure functions of
+   (shared input, own state).
+
+NOT proved: data-race freedom of the Go program itself (the Go memory model is not modelled).  It is observed on
+every run by the race detector (`harness-race`, suite C18), and the completeness of the write-frame extractor for
+stores (assignments, inc/dec, `copy`, `append`) is trusted.
+-/
 namespace Ivg.Props.C18
+
+/-- a machine over a shared immutable value -/
+structure Machine (Sh : Type) where
+  St : Type
+  step : Sh → St → St
+
+variable {Sh : Type} {n : Nat}
+
+/-- global state: one local state per machine -/
+def Global (ms : Fin n → Machine Sh) := ∀ i, (ms i).St
+
+/-- one scheduling decision: machine `i` takes a step -/
+def stepAt (sh : Sh) (ms : Fin n → Machine Sh) (g : Global ms) (i : Fin n) : Global ms :=
+  fun j => if h : j = i then h ▸ (ms i).step sh (g i) else g j
+
+def runSchedule (sh : Sh) (ms : Fin n → Machine Sh) (g : Global ms) : List (Fin n) → Global ms
+  | [] => g
+  | i :: rest => runSchedule sh ms (stepAt sh ms g i) rest
+
+/-- running machine `i` alone for `k` steps -/
+def runAlone (sh : Sh) (m : Machine Sh) (s : m.St) : Nat → m.St
+  | 0 => s
+  | k + 1 => runAlone sh m (m.step sh s) k
+
+theorem stepAt_self (sh : Sh) (ms : Fin n → Machine Sh) (g : Global ms) (i : Fin n) :
+    stepAt sh ms g i i = (ms i).step sh (g i) := by
+  simp [stepAt]
+
+theorem stepAt_other (sh : Sh) (ms : Fin n → Machine Sh) (g : Global ms) (i j : Fin n) (h : j ≠ i) :
+    stepAt sh ms g i j = g j := by
+  simp [stepAt, h]
+
+/-- **Every interleaving yields, per machine, the state of running it alone** for as many steps as the
+    schedule gave it. -/
+theorem interleaving_independent (sh : Sh) (ms : Fin n → Machine Sh) :
+    ∀ (sched : List (Fin n)) (g : Global ms) (i : Fin n),
+      runSchedule sh ms g sched i = runAlone sh (ms i) (g i) (sched.count i) := by
+  intro sched
+  induction sched with
+  | nil => intro g i; rfl
+  | cons j rest ih =>
+    intro g i
+    simp only [runSchedule]
+    rw [ih]
+    by_cases h : i = j
+    · subst h
+      simp [stepAt_self, runAlone]
+    · have hc : (j :: rest).count i = rest.count i := by
+        simp [List.count_cons, Ne.symm h]
+      rw [hc, stepAt_other sh ms g j i h]
+
+/-- two schedules that give a machine the same number of steps leave it in the same state -/
+theorem schedule_irrelevant (sh : Sh) (ms : Fin n → Machine Sh) (s₁ s₂ : List (Fin n)) (g : Global ms) (i : Fin n)
+    (h : s₁.count i = s₂.count i) : runSchedule sh ms g s₁ i = runSchedule sh ms g s₂ i := by
+  rw [interleaving_independent, interleaving_independent, h]
+
+/-! The models are machines of this kind: the shared value is the input (bytes, program, palette); a step is a
+    pure function of it and of the local state. -/
+
+open Ivg Num in
+/-- an Encoder fed the `k`-th call of a shared program -/
+def encoderMachine : Machine (List (Call F32)) where
+  St := Enc.Encoder × Nat
+  step := fun prog (e, k) => match prog[k]? with
+    | some c => (e.step c, k + 1)
+    | none => (e, k)
+
+open Ivg Num in
+/-- a Renderer fed the `k`-th call of a shared program -/
+def rendererMachine : Machine (List (Call F32)) where
+  St := Ren.Renderer F32 F64 × List (Ren.RasterOp F32 F64) × Nat
+  step := fun prog (z, ops, k) => match prog[k]? with
+    | some c => let (z', o) := z.step Ren.arcF32 F32.posInf c; (z', ops ++ o, k + 1)
+    | none => (z, ops, k)
+
+open Ivg Num in
+/-- a decoder working through shared input bytes one instruction at a time -/
+def decoderMachine : Machine Bytes where
+  St := Dec.DMode × Nat × List (Call F32) × Bool     -- mode, position, delivered, failed
+  step := fun src (m, pos, cs, failed) =>
+    if failed ∨ pos ≥ src.length then (m, pos, cs, failed) else
+    match Dec.stepDec m (src.drop pos) with
+    | (its, .ok (m', rest)) => (m', src.length - rest.length, cs ++ Dec.callsOf its, false)
+    | (its, .error _) => (m, pos, cs ++ Dec.callsOf its, true)
+
+/-- non-vacuity: three pipelines over one shared program, two different schedules, same results -/
+example :
+    let prog : List (Call Ivg.Num.F32) := [.setCSel 3, .setNSel 5, .setCSel 9, .setCReg 0 true (Ivg.Color.cRegColor 2)]
+    let ms : Fin 2 → Machine (List (Call Ivg.Num.F32)) := fun _ => encoderMachine
+    let g : Global ms := fun _ => (({} : Ivg.Enc.Encoder), 0)
+    (runSchedule prog ms g [0, 1, 0, 1, 0, 1, 0, 1] 0).1.buf = (runSchedule prog ms g [1, 1, 1, 1, 0, 0, 0, 0] 0).1.buf := by
+  decide +kernel
+
 end Ivg.Props.C18
-#obligations C18 [Ivg.Gen.Tie.drawOps_tie, Ivg.Gen.Tie.magic_tie, Ivg.Gen.Tie.errorStrings_tie]
+#obligations C18 [Ivg.Props.C18.interleaving_independent, Ivg.Props.C18.schedule_irrelevant,
+  Ivg.Gen.Tie.no_global_writes, Ivg.Gen.Tie.no_go_statements, Ivg.Gen.Tie.no_risky_imports,
+  Ivg.Gen.Tie.param_writes_frame, Ivg.Gen.Tie.package_vars_frame,
+  Ivg.Gen.Tie.renderer_fields_tie, Ivg.Gen.Tie.encoder_fields_tie, Ivg.Gen.Tie.gradient_fields_tie]
